@@ -57,5 +57,7 @@ G_TakeoverExpiredSlot == ~(apc = "new_set" /\ store[areg.item.h] # NULL /\ ~Conf
                             /\ store[areg.item.h].exp # 0 /\ store[areg.item.h].exp < now)
 G_CollidingDel      == ~(apc = "del_store" /\ store[areg.item.h] # NULL /\ ~ConfOK(areg.item.conf, store[areg.item.h].conf))
 G_FillAfterRejVict  == ~(rejVict /\ apc = "new_set" /\ areg.victims = <<>> /\ used = maxCost)
+G_RoomAfterSweepSkip == ~(apc \in {"new_set", "new_rej"} /\ (areg.victims # <<>> \/ apc = "new_rej") /\
+                          \E h \in swSkip : h # areg.item.h /\ store[h] # NULL /\ pol[h] # NoCost)
 G_RaiseCost         == ~(raised /\ used > maxCost)
 =============================================================================
